@@ -1335,10 +1335,10 @@ func runC20(c *Ctx) {
 	d += runStream("noflow", 0, n/3)
 	d += runStream("malformed", 0, n/4)
 	d += runStream("mixed", 0, n/4)
-	for a, nu := 0, c.N(400, 4000); a < nu; a += 400 { // in portions: the universe files are large
+	for a, nu := 0, c.N(400, 1500); a < nu; a += 400 { // in portions: the universe files are large
 		d += runStream("universe", a, min(a+400, nu))
 	}
-	runC20UniverseReader(c, c.N(500, 8000))
+	runC20UniverseReader(c, c.N(500, 3000))
 	runDecStream(c, c.N(2000, 20000))
 	if d > 0 && !c.Replay {
 		c.Notes = append(c.Notes, fmt.Sprintf("directed search: %d disagreements, %d additional cases", d, 3*n))
